@@ -15,7 +15,7 @@ Inductive site :=
 | SQuorum (due : bool) (q : dec) (votes voters : Z)             (* processProposal of a due proposal *)
 | SPollQuorum (due : bool) (q : dec) (votes voters : Z)         (* processPoll of a due poll *)
 | SWithdraw (due : bool) (modbal poolbal amt : Z) (nben : nat)  (* enactment of a passed Withdraw proposal *)
-| SClaim (due : bool) (poolbal : Z) (rate w : dec) (cstart last now cend expiry : Z). (* Distribution, 1 beneficiary *)
+| SClaim (due : bool) (poolbal : Z) (rate w : dec) (cstart last now cend expiry : Z) (dyn : bool) (lastcalc : Z). (* Distribution, 1 beneficiary *)
 
 Inductive c06_case :=
 | CHist (kind : string) (blocks : list blk)
@@ -30,8 +30,8 @@ Definition predicted (s : site) : option string :=   (* None = EndBlock complete
   | SPollQuorum due q votes voters => if due then cls (process_quorum_on gov_poll_quorum_error_panics q votes voters) else None
   | SWithdraw due modbal poolbal amt nben =>
       if due then cls (apply_proposal (withdraw_handler_on withdraw_sub_unchecked nben amt) (modbal, poolbal)) else None
-  | SClaim due poolbal rate w cstart last now cend expiry =>
-      if due then cls (apply_proposal (fun pb => claim_on claim_sub_unchecked pb rate w cstart last now cend expiry) poolbal) else None
+  | SClaim due poolbal rate w cstart last now cend expiry dyn lastcalc =>
+      if due then cls (apply_proposal (fun pb => claim_dyn claim_sub_unchecked pb rate w cstart last now cend expiry dyn lastcalc) poolbal) else None
   end.
 Definition obs_cls (p : phase_obs) : option string := match p with PhOk => None | PhPanic _ c => Some c end.
 Definition ostr_eqb (a b : option string) : bool :=
